@@ -11,6 +11,7 @@ regenerated from /repo on every run (`Bptk.Gen.C03`), where `good cfg xmilePrec`
 -/
 namespace Bptk.C03
 open Bptk.Py
+set_option linter.unusedSectionVars false
 
 /-! ### Decidable side conditions on the probed configuration -/
 
@@ -196,6 +197,7 @@ theorem gen_trans (x : X) (init : Bool) (hx : XWL P x = true) (hk : known c x = 
       gen c init x = pr (trans c P init x) := by
   match x, hx, hk with
   | .num s, _, _ => simp [trans, gen, Good, WLb, lvl, noHole, xlvl, pr]
+  | .nothing, hx, _ => simp [XWL] at hx
   | .id s, _, _ =>
     have := good_idPy s init
     exact ⟨this.1, by simp [trans, xlvl, this.2], by simp [trans, gen, pr_idPy]⟩
@@ -321,5 +323,240 @@ theorem prec_agree (x : X) (init : Bool) (hx : XWL P x = true) (hk : known c x =
 end
 
 #print axioms prec_agree
+
+/-! ### Values: carrier-generic reference semantics of an equation tree -/
+
+variable {α : Type}
+
+mutual
+/-- XMILE reference semantics with uninterpreted operations: operators by their meaning, a variable
+is its (opaque) value at the current time — at the start time inside INIT —, a builtin is its shape
+evaluated on the VALUES of its arguments (each argument a unit). -/
+def xeval (C : Carrier α) (c : Cfg) (P : XPrec) (init : Bool) : X → α
+  | .num s => C.num s
+  | .nothing => C.name "NOTHING"
+  | .id s => eval C (fun _ => C.name "MISSING") (idPy s init)
+  | .paren e => xeval C c P init e
+  | .neg e => C.neg (xeval C c P init e)
+  | .notp e => C.not (xeval C c P init e)
+  | .bin k l r => C.bin (P.img k) (xeval C c P init l) (xeval C c P init r)
+  | .ite cnd a b => C.ite (xeval C c P init a) (xeval C c P init cnd) (xeval C c P init b)
+  | .call f args =>
+    eval C (nthD (C.name "MISSING") (xevalL C c P (initMode init f) args)) (fnShape c f args.length)
+def xevalL (C : Carrier α) (c : Cfg) (P : XPrec) (init : Bool) : List X → List α
+  | [] => []
+  | e :: es => xeval C c P init e :: xevalL C c P init es
+end
+
+/-- the three structural templates denote what they should: `()` is transparent, `if` is the
+conditional with (then, condition, else) = (arg 1, arg 0, arg 2), `not` is negation -/
+def shapesOK (c : Cfg) : Bool :=
+  (match findFn c "()" 1 with
+   | some t => beqPy (erase (shapeOf t)) (.hole 0)
+   | none => false) &&
+  (match findFn c "if" 3 with
+   | some t => beqPy (erase (shapeOf t)) (.ite (.hole 1) (.hole 0) (.hole 2))
+   | none => false) &&
+  beqPy (erase (shapeOf c.notT)) (.not (.hole 0))
+
+theorem eval_paren_shape (c : Cfg) (hS : shapesOK c = true) (C : Carrier α) (ρ : Nat → α) :
+    eval C ρ (fnShape c "()" 1) = ρ 0 := by
+  unfold shapesOK at hS
+  simp only [Bool.and_eq_true] at hS
+  have h := hS.1.1
+  unfold fnShape
+  cases hf : findFn c "()" 1 with
+  | none => simp [hf] at h
+  | some t =>
+    simp only [hf] at h
+    rw [← eval_erase, beqPy_eq _ _ h]
+    simp [eval]
+
+theorem eval_ite_shape (c : Cfg) (hS : shapesOK c = true) (C : Carrier α) (ρ : Nat → α) :
+    eval C ρ (fnShape c "if" 3) = C.ite (ρ 1) (ρ 0) (ρ 2) := by
+  unfold shapesOK at hS
+  simp only [Bool.and_eq_true] at hS
+  have h := hS.1.2
+  unfold fnShape
+  cases hf : findFn c "if" 3 with
+  | none => simp [hf] at h
+  | some t =>
+    simp only [hf] at h
+    rw [← eval_erase, beqPy_eq _ _ h]
+    simp [eval]
+
+theorem eval_not_shape (c : Cfg) (hS : shapesOK c = true) (C : Carrier α) (ρ : Nat → α) :
+    eval C ρ (shapeOf c.notT) = C.not (ρ 0) := by
+  unfold shapesOK at hS
+  simp only [Bool.and_eq_true] at hS
+  rw [← eval_erase, beqPy_eq _ _ hS.2]
+  simp [eval]
+
+mutual
+/-- **Values.** In any arithmetic (every carrier with uninterpreted operations) the Python tree
+denotes the XMILE reference value of the equation tree: same operation tree, same order. -/
+theorem eval_trans (c : Cfg) (P : XPrec) (hS : shapesOK c = true) (C : Carrier α) (x : X) (init : Bool) :
+    eval C (fun _ => C.name "MISSING") (trans c P init x) = xeval C c P init x := by
+  match x with
+  | .num s => simp [trans, xeval, eval]
+  | .nothing => simp [trans, xeval, eval]
+  | .id s => simp [trans, xeval]
+  | .paren e =>
+    simp only [trans, xeval, eval_subst, eval_paren_shape c hS]
+    exact eval_trans c P hS C e init
+  | .neg e => simp only [trans, xeval, eval]; rw [eval_trans c P hS C e init]
+  | .notp e =>
+    simp only [trans, xeval, eval_subst, eval_not_shape c hS]
+    rw [eval_trans c P hS C e init]
+  | .bin k l r =>
+    simp only [trans, xeval, eval]
+    rw [eval_trans c P hS C l init, eval_trans c P hS C r init]
+  | .ite cnd a b =>
+    simp only [trans, xeval, eval_subst, eval_ite_shape c hS, sel3]
+    rw [eval_trans c P hS C cnd init, eval_trans c P hS C a init, eval_trans c P hS C b init]
+  | .call f args =>
+    simp only [trans, xeval, eval_subst]
+    congr 1
+    funext i
+    rw [nthD_map_eval, evalL_transL c P hS C args (initMode init f)]
+theorem evalL_transL (c : Cfg) (P : XPrec) (hS : shapesOK c = true) (C : Carrier α) (xs : List X)
+    (init : Bool) :
+    evalL C (fun _ => C.name "MISSING") (transL c P init xs) = xevalL C c P init xs := by
+  match xs with
+  | [] => simp [transL, evalL, xevalL]
+  | e :: es =>
+    simp only [transL, evalL, xevalL]
+    rw [eval_trans c P hS C e init, evalL_transL c P hS C es init]
+end
+
+/-! ### Per program: what a successful validation means -/
+
+theorem validate_sound (c : Cfg) (P : XPrec) (ts : List XTok) (ir x : X)
+    (h : validate c P ts ir = some x) :
+    flat x = ts ∧ XWL P x = true ∧ flat ir = ts ∧ gen c false ir = gen c false x := by
+  unfold validate at h
+  split at h
+  · split at h
+    · rename_i hc
+      simp only [Bool.and_eq_true, decide_eq_true_eq] at hc
+      cases h
+      exact ⟨hc.1.1.1, hc.1.1.2, hc.1.2, hc.2⟩
+    · cases h
+  · cases h
+
+/-! ### The property -/
+
+/-- **C03 at full strength** for generator configuration `c` and XMILE operator table `P`:
+(1) for EVERY equation tree that is the XMILE reading of its tokens and uses known functions, the
+    emitted text has a CPython parse that is the image of the tree (operators under the token map,
+    builtins applied to their arguments as units, parentheses where the source has them), and its
+    value — in any arithmetic — is the XMILE reference value;
+(2) for every program the driver validates (the reference reading of the source tokens prints back
+    to them, the IR kept the token sequence and renders to the same text) the text emitted for the
+    IR denotes the reference reading;
+(3) every builtin of the vocabulary is present and denotes its intended operation;
+(4) an equation using a function outside the table raises instead of yielding a value. -/
+def C03_full (c : Cfg) (P : XPrec) : Prop :=
+  (∀ (x : X) (init : Bool), XWL P x = true → known c x = true →
+     Parses (gen c init x) (trans c P init x) ∧
+     ∀ (α : Type) (C : Carrier α),
+       eval C (fun _ => C.name "MISSING") (trans c P init x) = xeval C c P init x) ∧
+  (∀ (ts : List XTok) (ir x : X), validate c P ts ir = some x → known c x = true →
+     flat ir = ts ∧ flat x = ts ∧ Parses (gen c false ir) (trans c P false x) ∧
+     ∀ (α : Type) (C : Carrier α),
+       eval C (fun _ => C.name "MISSING") (trans c P false x) = xeval C c P false x) ∧
+  ((∀ t ∈ c.fns, ∀ s, specFn t.cls t.arity = some s →
+     ∀ (α : Type) (C : Carrier α) (ρ : Nat → α), eval C ρ (shapeOf t) = eval C ρ s) ∧
+   vocabOK c = true) ∧
+  (∀ x : X, known c x = false → compile c x = none)
+
+theorem C03_full_of_good (c : Cfg) (P : XPrec) (hP : precAgree P = true) (h : good c P = true)
+    (hS : shapesOK c = true) : C03_full c P := by
+  unfold good at h
+  simp only [Bool.and_eq_true] at h
+  obtain ⟨⟨⟨⟨⟨⟨hO, hF⟩, hN⟩, _hI⟩, hSp⟩, hV⟩, hU⟩ := h
+  refine ⟨?_, ?_, ⟨?_, hV⟩, ?_⟩
+  · intro x init hx hk
+    exact ⟨prec_agree c P hP hO hF hN x init hx hk, fun α C => eval_trans c P hS C x init⟩
+  · intro ts ir x hv hk
+    have v := validate_sound c P ts ir x hv
+    refine ⟨v.2.2.1, v.1, ?_, fun α C => eval_trans c P hS C x false⟩
+    rw [v.2.2.2]
+    exact prec_agree c P hP hO hF hN x false v.2.1 hk
+  · intro t ht s hs α C ρ
+    unfold specOK at hSp
+    simp only [Bool.and_eq_true] at hSp
+    have := hSp.1
+    rw [List.all_eq_true] at this
+    have := this t ht
+    simp only [hs] at this
+    rw [← eval_erase C ρ (shapeOf t), beqPy_eq _ _ this]
+  · intro x hk
+    simp [compile, hk, hU]
+
+/-- What holds whatever the builtin templates look like: values always follow the tree (given the
+three structural shapes), and a validated program keeps its token sequence. -/
+theorem C03_partial (c : Cfg) (P : XPrec) (hS : shapesOK c = true) :
+    (∀ (x : X) (init : Bool) (α : Type) (C : Carrier α),
+       eval C (fun _ => C.name "MISSING") (trans c P init x) = xeval C c P init x) ∧
+    (∀ ts ir x, validate c P ts ir = some x → flat ir = flat x) :=
+  ⟨fun x init α C => eval_trans c P hS C x init,
+   fun ts ir x h => by have v := validate_sound c P ts ir x h; rw [v.1, v.2.2.1]⟩
+
+/-- unknown builtin silently compiled to `0` (the pinned tree): the property fails -/
+theorem C03_witness_unknown (c : Cfg) (P : XPrec) (h : c.unknownBuiltinRaises = false)
+    (hf : findFn c "foo" 1 = none) : ¬ C03_full c P := by
+  intro hfull
+  have := hfull.2.2.2 (.call "foo" [.id "a"]) (by simp [known, hf])
+  simp [compile, h] at this
+
+theorem xmile_prec_agrees : precAgree xmilePrec = true := by decide
+
+/-! ### Negation witness for the bare builtin templates of the pinned tree -/
+
+/-- `sqrt ↦ ({0} ** 0.5 )` as on the pinned tree -/
+def bareSqrtCfg : Cfg where
+  opT k := [.hole 0, .op (xmilePrec.img k), .hole 1]
+  notT := { cls := "not", arity := 1, toks := [.lp, .knot, .hole 0, .rp] }
+  fns := [{ cls := "sqrt", arity := 1, toks := [.lp, .hole 0, .op .pow, .num "0.5", .rp] }]
+  identT := idToks "probe" false
+  identInitT := idToks "probe" true
+  unknownBuiltinRaises := true
+
+/-- `SQRT(2+7)` is emitted as `(2.0 + 7.0 ** 0.5 )`, which CPython reads as `2 + 7**0.5` -/
+theorem C03_witness_bare_sqrt :
+    (parse (gen bareSqrtCfg false (.call "sqrt" [.bin .add (.num "2.0") (.num "7.0")]))).map sexp
+      = some "(+ (num 2.0) (** (num 7.0) (num 0.5)))" ∧ fnsOK bareSqrtCfg = false := by
+  decide +kernel
+
+/-! ### Non-vacuity -/
+
+def demoCfg : Cfg where
+  opT k := [.hole 0, .op (xmilePrec.img k), .hole 1]
+  notT := { cls := "not", arity := 1, toks := [.lp, .knot, .hole 0, .rp] }
+  fns := [{ cls := "()", arity := 1, toks := [.lp, .hole 0, .rp] },
+          { cls := "if", arity := 3, toks := [.lp, .lp, .hole 1, .rp, .kif, .lp, .hole 0, .rp, .kelse, .lp, .hole 2, .rp, .rp] },
+          { cls := "sqrt", arity := 1, toks := [.lp, .lp, .hole 0, .rp, .op .pow, .num "0.5", .rp] }]
+  identT := idToks "probe" false
+  identInitT := idToks "probe" true
+  unknownBuiltinRaises := true
+
+/-- `IF a > 1 THEN SQRT(a + b) * -2 ^ 2 ELSE (a - b) - c`: well-levelled, known, and validated as the
+reading of its own tokens. -/
+def demoX : X :=
+  .ite (.bin .gt (.id "a") (.num "1.0"))
+    (.bin .mul (.call "sqrt" [.bin .add (.id "a") (.id "b")]) (.neg (.bin .pow (.num "2.0") (.num "2.0"))))
+    (.bin .sub (.paren (.bin .sub (.id "a") (.id "b"))) (.id "c"))
+
+example : opOK demoCfg xmilePrec = true ∧ fnsOK demoCfg = true ∧ notOK demoCfg = true ∧
+    shapesOK demoCfg = true ∧ XWL xmilePrec demoX = true ∧ known demoCfg demoX = true ∧
+    (validate demoCfg xmilePrec (flat demoX) demoX).isSome = true := by decide +kernel
+
+#print axioms C03_full_of_good
+#print axioms C03_partial
+#print axioms C03_witness_unknown
+#print axioms C03_witness_bare_sqrt
+#print axioms xmile_prec_agrees
+#print axioms eval_trans
 
 end Bptk.C03
